@@ -39,9 +39,12 @@ WholeBatchPrefix(got) == /\ Len(got) > 0 /\ Len(got) < Len(orig) /\ got = SubSeq
 \* "mustfail" inputs: one push/pop-verified field (block length, record length, CRC) is wrong and everything around
 \* it consistent. "A length that disagrees with the data / an altered checksum is reported as an error": ok is
 \* acceptable only where the code documents a tolerance - the decoder flags the tail as partial (ErrInsufficientData
-\* on a trailing block), or a fetch block drops whole trailing batches after a complete one. Returning the
+\* on a trailing block), or a fetch block drops whole trailing batches after a complete one - see truncok below. Returning the
 \* original records WITHOUT having noticed is not acceptable: the field was not verified.
-Tolerated(got, partial) == (partial /\ NoDifferentRecords(got)) \/ WholeBatchPrefix(got)
+\* The tolerance is for a message cut short at the END of the fetched bytes only: the damaged length must exceed the
+\* bytes that remain in its decoder (truncok). A length <= remaining - negative ones included - that disagrees with
+\* the data, or a wrong CRC, cannot be explained by truncation: it must be an error, flagged-partial is not enough.
+Tolerated(got, partial, truncok) == truncok /\ ((partial /\ NoDifferentRecords(got)) \/ WholeBatchPrefix(got))
 ExactOrFlagged(got, partial) == got = orig \/ (partial /\ NoDifferentRecords(got)) \/ WholeBatchPrefix(got)
 
 DecClauses ==
@@ -50,7 +53,7 @@ DecClauses ==
   \cup When(E.res = "oom" \/ E.alloc > BoundKiB(E.inlen, E.comp) + E.allow, "alloc_proportional")
   \cup When(E.dmg /\ E.res = "ok" /\ ~NoDifferentRecords(E.got), "crc_or_length_damage_is_error")
   \cup When(E.strict /\ E.res = "ok" /\ ~ExactOrFlagged(E.got, E.partial), "crc_or_length_damage_is_error")
-  \cup When(E.mustfail /\ E.res = "ok" /\ ~Tolerated(E.got, E.partial), "crc_or_length_damage_is_error")
+  \cup When(E.mustfail /\ E.res = "ok" /\ ~Tolerated(E.got, E.partial, E.truncok), "crc_or_length_damage_is_error")
   \cup When(E.res \notin {"ok", "err", "panic", "crash", "hang", "oom"}, "unclassified_result")
 
 \* the primitive contract, on the real primitive's outcome
